@@ -23,7 +23,10 @@ def outcomes(repo: Repo) -> List[Outcome]:
         ev = Evaluator(repo, MOD)
         ev.fork_ifexp = True       # `x = a if c else b` is a path fork like an if statement
         fn = repo.func(MOD, "document_single_file")
-        _cache[k] = ev.run_function(fn, {})
+        # the parameters are bound to canonical symbols by position, whatever they are called
+        ps = [a.arg for a in fn.args.args]
+        binding = dict(zip(ps, (FILE, ROOT, SETTINGS)))
+        _cache[k] = ev.run_function(fn, binding)
     return _cache[k]
 
 
